@@ -12,7 +12,9 @@ use serde_json::{json, Value};
 use std::time::Duration;
 use verif_harness::common::*;
 
-const TTLS: [u64; 12] = [0, 1, 2, 5, 5, 30, 60, 61, 300, 3600, 3600, 86400];
+const TICK_TTLS: [u64; 12] = [0, 1, 2, 5, 5, 30, 60, 61, 300, 3600, 3600, 86400];
+/// record TTLs, including one larger than every configurable bound
+const TTLS: [u64; 14] = [0, 1, 2, 5, 5, 30, 60, 61, 300, 3600, 3600, 86400, 2000000, 2000000];
 
 fn rr(o: &str, t: &str, ttl: u64, id: u64) -> Value {
     json!({"o": o, "t": t, "c": "IN", "ttl": ttl, "rd": id})
@@ -84,8 +86,10 @@ fn upstream_answer(rng: &mut Rng, q: &Value) -> Value {
                 ns.push(rr(zone, "NS", t2, 2));
                 sig(&mut ns, zone, t2, 2);
                 ar.push(rr("t1.example", "A", t3, 9));
+                sig(&mut ar, "t1.example", t3, 10);
                 if rng.chance(1, 2) {
                     ar.push(rr("t2.example", "AAAA", t3, 9));
+                    sig(&mut ar, "t2.example", t3, 11);
                 }
             }
             if cls == 18 {
@@ -118,6 +122,7 @@ fn upstream_answer(rng: &mut Rng, q: &Value) -> Value {
                 ns.push(rr(&name, "RRSIG", t2, 7));
             }
             ar.push(rr("t3.example", "A", t3, 3));
+            sig(&mut ar, "t3.example", t3, 12);
         }
         16 => {
             rcode = *rng.pick(&["SERVFAIL", "REFUSED", "FORMERR", "NOTIMP"]);
@@ -159,6 +164,12 @@ fn pick_config(kind: &str, rng: &mut Rng) -> Value {
         "min" => json!({"maxValidity": 60, "transportFailure": 1, "miscError": 1,
             "maxNxdomain": 60, "maxNodata": 60, "maxDelegation": 60,
             "cacheTruncated": false, "maxEntries": 100000}),
+        // max_validity below every class bound (transport failures: equal, see
+        // the named deviation D_err_exceeds_max_validity, which the S->I
+        // cases of Gen_Cache_err cover)
+        "tight" => json!({"maxValidity": 100, "transportFailure": 100, "miscError": 300,
+            "maxNxdomain": 3600, "maxNodata": 3600, "maxDelegation": 1000000,
+            "cacheTruncated": true, "maxEntries": 100000}),
         "mixed" => json!({"maxValidity": 3000, "transportFailure": 2, "miscError": 4,
             "maxNxdomain": 60, "maxNodata": 120, "maxDelegation": 240,
             "cacheTruncated": true, "maxEntries": 100000}),
@@ -205,8 +216,8 @@ fn main() {
                     5 => 1001,
                     6 => 1500,
                     7 => 4000 + rng.below(2001),
-                    8 => 1000 * *rng.pick(&TTLS),
-                    9 => 1000 * *rng.pick(&TTLS) + 1,
+                    8 => 1000 * *rng.pick(&TICK_TTLS),
+                    9 => 1000 * *rng.pick(&TICK_TTLS) + 1,
                     10 => 1000 * *rng.pick(&bounds),
                     11 => 1000 * *rng.pick(&bounds) + 1,
                     12 => 1000 * *rng.pick(&bounds) - 1,
